@@ -124,6 +124,11 @@ func C16(p *Prog, r *Run) {
 		for _, fn := range p.SrcFuncs() {
 			for _, e := range Writes(fn) {
 				if e.Kind == "field" && e.Owner != nil && e.Owner.Obj().Name() == "Innovation" && e.Owner.Obj().Pkg().Path() == PkgG && !ctors[fn.Name()] {
+					// initialising a record that this very function allocated and has not handed to anybody yet is construction
+					// too (a helper shared by the constructors); a declaration the normaliser expanded away is not executed
+					if p.expandedAway(fn, PinnedFuncs()) || c16UnpublishedFresh(p, fn, e) {
+						continue
+					}
 					r.Bad("Innovation.immutable:"+e.Field.Name(), p.Pos(e.Instr.Pos()), FuncName(fn)+" writes Innovation."+e.Field.Name()+" after construction: a goroutine scanning its snapshot of the list would race with it")
 					okImm = false
 				}
